@@ -207,13 +207,49 @@ def check_concrete_match(seed=5):
     return n
 
 
+def check_lemma_canaries():
+    """vacuity guards of the C05 lemmas: a negated goal and a wrong Not-Defined value must be refuted"""
+    import z3
+
+    import lemmas.spelling as L
+    import pyvc.contract as PC
+    from pyvc.contract import run_lemma
+
+    n = 0
+    orig = PC.LemmaCtx.prove
+
+    def negated(self, name, goal, detail=None):
+        return orig(self, name, z3.Not(goal) if name == "perm/same-values" else goal, detail)
+
+    PC.LemmaCtx.prove = negated
+    try:
+        r = run_lemma("perm", L.perm, {"version": "3"}).to_json()
+    finally:
+        PC.LemmaCtx.prove = orig
+    st = {o["name"].split("/")[-1]: o["status"] for o in r["obligations"]}
+    assert st.get("same-values") == "refuted" and st.get("same-keys") == "discharged", st
+    n += 1
+    vers = L.VERS
+    try:
+        L.VERS = dict(vers)
+        t = list(vers["2"])
+        t[3] = "H"  # a wrong Not-Defined value
+        L.VERS["2"] = tuple(t)
+        r = run_lemma("spelling", L.spelling, {"version": "2", "mode": "spelled"}).to_json()
+    finally:
+        L.VERS = vers
+    assert any(o["status"] == "refuted" for o in r["obligations"]), "wrong ND value not refuted"
+    n += 1
+    return n
+
+
 def main():
     import time
 
     t0 = time.time()
     out = {}
     for name, fn in (("canaries", check_canaries), ("string-axioms", check_string_axioms), ("decimal", check_decimal),
-                     ("regex", check_regex), ("join-rule", check_join_rule), ("concrete-match", check_concrete_match)):
+                     ("regex", check_regex), ("join-rule", check_join_rule), ("concrete-match", check_concrete_match), ("lemma-canaries", check_lemma_canaries)):
         try:
             out[name] = fn()
         except AssertionError as e:
